@@ -1176,6 +1176,14 @@ func (u *Unit) inlineCall(st *State, fi *FuncInfo, targs []types.Type, args []Va
 			u.results = append(u.results, r)
 		}
 	}
+	preAssume := len(st.assume)
+	preVars := map[types.Object]bool{}
+	for o := range st.vars {
+		preVars[o] = true
+	}
+	for _, o := range objs {
+		delete(preVars, o)
+	}
 	falls := u.execBlock(st, fi.Decl.Body.List)
 	var normal []*Exit
 	var panics []*Exit
@@ -1199,8 +1207,15 @@ func (u *Unit) inlineCall(st *State, fi *FuncInfo, targs []types.Type, args []Va
 			st.dead = true
 			return nil
 		}
-		u.errorf("%s: helper %s without contract has %d normal exits (only single-exit helpers are inlined)", u.pos(call), fi.Key, len(normal))
-		return nil
+		// several normal exits: join them into one state (values and state components become
+		// if-then-else terms over the exits' path conditions)
+		merged, rets, why := mergeExits(st, preAssume, preVars, normal)
+		if why != "" {
+			u.errorf("%s: helper %s without contract has %d normal exits that cannot be joined (%s)", u.pos(call), fi.Key, len(normal), why)
+			return nil
+		}
+		*st = *merged
+		return rets
 	}
 	// continue in the helper's exit state
 	*st = *normal[0].st
@@ -1222,4 +1237,186 @@ func (u *Unit) framePropsFor(comp string) []string {
 		}
 	}
 	return props
+}
+
+// mergeExits joins the normal exits of an inlined helper. Every exit state extends the state at the
+// call (its assumptions are the call state's assumptions plus the path's own), so the joined state
+// assumes the call state's assumptions and the disjunction of the paths' own; a value or state
+// component that differs between exits becomes an if-then-else over those path conditions.
+func mergeExits(at *State, preAssume int, preVars map[types.Object]bool, exits []*Exit) (*State, []Value, string) {
+	var conds []*Term
+	for _, e := range exits {
+		if len(e.st.assume) < preAssume || len(e.st.guard) != len(at.guard) {
+			return nil, nil, "an exit does not extend the state at the call"
+		}
+		conds = append(conds, And(e.st.assume[preAssume:]...))
+	}
+	first := exits[0].st
+	out := first.clone()
+	out.assume = append(append([]*Term{}, first.assume[:preAssume]...), Or(conds...))
+	// the kernel bookkeeping keeps only what all exits share
+	minB := len(first.branch)
+	for _, e := range exits {
+		if len(e.st.branch) < minB {
+			minB = len(e.st.branch)
+		}
+		if e.st.kord != first.kord {
+			return nil, nil, "the exits ran different conversion loops"
+		}
+	}
+	for i := 0; i < minB; i++ {
+		for _, e := range exits {
+			if e.st.branch[i].String() != first.branch[i].String() {
+				minB = i
+			}
+		}
+	}
+	out.branch = append([]*Term{}, first.branch[:minB]...)
+	iteT := func(get func(*State) *Term) (*Term, string) {
+		r := get(exits[len(exits)-1].st)
+		if r == nil {
+			return nil, "missing component"
+		}
+		for i := len(exits) - 2; i >= 0; i-- {
+			t := get(exits[i].st)
+			if t == nil || t.Sort != r.Sort {
+				return nil, "components of different sorts"
+			}
+			if t.String() != r.String() {
+				r = Ite(conds[i], t, r)
+			}
+		}
+		return r, ""
+	}
+	keys := map[string]bool{}
+	for _, e := range exits {
+		for k := range e.st.mem {
+			keys[k] = true
+		}
+	}
+	for k := range keys {
+		k := k
+		t, why := iteT(func(s *State) *Term { return s.mem[k] })
+		if why != "" {
+			return nil, nil, "state component " + k + ": " + why
+		}
+		out.mem[k] = t
+	}
+	var mergeVal func(vals []Value) (Value, string)
+	mergeVal = func(vals []Value) (Value, string) {
+		v0 := vals[0]
+		same := true
+		for _, v := range vals[1:] {
+			if v.K != v0.K {
+				return v0, "values of different kinds"
+			}
+			if v.String() != v0.String() {
+				same = false
+			}
+		}
+		if same && v0.K != KStruct && v0.K != KIface {
+			return v0, ""
+		}
+		join := func(get func(Value) *Term) (*Term, string) {
+			r := get(vals[len(vals)-1])
+			for i := len(vals) - 2; i >= 0; i-- {
+				t := get(vals[i])
+				if (t == nil) != (r == nil) {
+					return nil, "partially defined value"
+				}
+				if t == nil {
+					continue
+				}
+				if t.Sort != r.Sort {
+					return nil, "values of different sorts"
+				}
+				if t.String() != r.String() {
+					r = Ite(conds[i], t, r)
+				}
+			}
+			return r, ""
+		}
+		res := v0
+		var why string
+		switch v0.K {
+		case KInt, KBool, KNum, KBuf, KPool, KPtrData:
+			if res.Term, why = join(func(v Value) *Term { return v.Term }); why != "" {
+				return v0, why
+			}
+			if res.Spec, why = join(func(v Value) *Term { return v.Spec }); why != "" {
+				return v0, why
+			}
+			if v0.Inner != nil {
+				return v0, "value with an attached integer"
+			}
+		case KSlice:
+			if res.Ptr, why = join(func(v Value) *Term { return v.Ptr }); why != "" {
+				return v0, why
+			}
+			if res.Len, why = join(func(v Value) *Term { return v.Len }); why != "" {
+				return v0, why
+			}
+			if res.Cap, why = join(func(v Value) *Term { return v.Cap }); why != "" {
+				return v0, why
+			}
+		case KStruct:
+			res.Fields = map[string]Value{}
+			for name := range v0.Fields {
+				var fs []Value
+				for _, v := range vals {
+					f, ok := v.Fields[name]
+					if !ok {
+						return v0, "struct values with different fields"
+					}
+					fs = append(fs, f)
+				}
+				m, why := mergeVal(fs)
+				if why != "" {
+					return v0, why
+				}
+				res.Fields[name] = m
+			}
+		case KString, KUnit:
+			if !same {
+				return v0, "different strings"
+			}
+		default:
+			if !same {
+				return v0, "values that cannot be joined"
+			}
+		}
+		return res, ""
+	}
+	out.vars = map[types.Object]Value{}
+	for o := range preVars {
+		var vals []Value
+		for _, e := range exits {
+			v, ok := e.st.vars[o]
+			if !ok {
+				return nil, nil, "a caller variable is missing at an exit"
+			}
+			vals = append(vals, v)
+		}
+		m, why := mergeVal(vals)
+		if why != "" {
+			return nil, nil, "variable " + o.Name() + ": " + why
+		}
+		out.vars[o] = m
+	}
+	var rets []Value
+	for i := range exits[0].rets {
+		var vals []Value
+		for _, e := range exits {
+			if i >= len(e.rets) {
+				return nil, nil, "exits with different result counts"
+			}
+			vals = append(vals, e.rets[i])
+		}
+		m, why := mergeVal(vals)
+		if why != "" {
+			return nil, nil, "result: " + why
+		}
+		rets = append(rets, m)
+	}
+	return out, rets, ""
 }
